@@ -23,6 +23,9 @@ CHECKS = {
          '13 queries per library on cells and references (repetitions applied or attached, depth limits, tag filters, paths, labels), deep copy + mutate + free, '
          'then flatten and re-query; polygon sets matched vertex by vertex, path results as guarded regions',
          'leaf path outlines observed from to_polygons of the untransformed leaf; all paths scale their width; at most 300 flattened instances per library', '7/C06'),
+ 'C09': ('exploration', 'reference-model monitor: extrema and hull predicates over the hand-flattened geometry vs bounding_box/convex_hull with fresh, shared and repeated caches',
+         'boxes must equal the extrema of all flattened geometry points, hulls must contain every point and have only geometry points as corners, cached == uncached',
+         'leaf path outlines observed from to_polygons; libraries sampled with degenerate leaves, explicit offset lists and rotated references forced in', '7/C09'),
  'C10': ('exploration', 'reference-model monitor: hand-composed 2x3 matrices vs element fields and outlines after transform sequences, under ASan+UBSan',
          'vertices/spines equal the matrix image; width/offset/extension scaling rules; label/reference fields must reproduce the composed placement; '
          'outline(T(path)) vs T(outline(path)) by guarded region sampling',
